@@ -74,6 +74,20 @@ def generate(rng, tier):
             dup["pname"], dup["version"] = "ext0", "0.2.0"
             ext.append(dup)
             rng.choice(others)["deps"].append("extdup")
+    if ext and rng.chance(40):
+        # a third outside package, reached only as a *later* entry (by name) of a dependency list whose earlier
+        # entries have been walked already: two members sharing ext0 of which one has ext2 as well, or one member
+        # with a diamond (ext0 -> ext1, and ext1 again directly) plus ext2
+        ext.append(mkpkg("ext2", "ext2"))
+        shape = rng.below(3)
+        free = [p for p in others if "extdup" not in p["deps"]]  # (two packages called ext0 cannot be one package's dependencies)
+        if shape == 0 and free:
+            b = rng.choice(free)
+            b["deps"] += [d for d in ("ext0", "ext2") if d not in b["deps"]]
+        elif shape == 1 and any(p["name"] == "ext1" for p in ext):
+            user0["deps"] += ["ext1", "ext2"]
+        else:
+            user0["deps"].append("ext2")
     for i in range(1, nmem):
         if rng.chance(35):
             pk[i]["deps"].append(pk[rng.below(i)]["name"])
